@@ -39,14 +39,18 @@ def parseOp : List String → Option Op
     | "s", some u => some (.send true u)
     | "n", some u => some (.send false u)
     | _, _ => none
-  | ["ack", h] => h.toNat?.map Op.ack
+  | ["ack", h] => h.toNat?.map fun h => Op.ack h [] true
   | ["ack", h, r, u] =>
     match h.toNat?, parseRe r, parseUp u with
-    | some h, some r, some u => some (.ackRe h r u)
+    | some h, some r, some u => some (.ack h r u)
     | _, _, _ => none
+  | ["resumed", h, u] =>
+    match h.toNat?, parseUp u with
+    | some h, some u => some (.resumed h [] u)
+    | _, _ => none
   | ["resumed", h, r, u] =>
     match h.toNat?, parseRe r, parseUp u with
-    | some h, some r, some u => some (.resumedRe h r u)
+    | some h, some r, some u => some (.resumed h r u)
     | _, _, _ => none
   | ["resumeFailed", "-"] => some (.resumeFailed none)
   | ["resumeFailed", h] => h.toNat?.map fun h => Op.resumeFailed (some h)
@@ -56,13 +60,17 @@ def parseOp : List String → Option Op
   | ["recv", "i"] => some (.recv .iq)
   | ["recv", "x"] => some (.recv .nonza)
   | ["closed"] => some .sessionClosed
-  | ["enabledNew", u] => (parseUp u).map Op.enabledNew
-  | ["resumeReq", u] => (parseUp u).map Op.resumeReq
-  | ["resumed", h, u] =>
-    match h.toNat?, parseUp u with
-    | some h, some u => some (.resumed h u)
+  | ["enabledNew", u] => (parseUp u).map (Op.enabledNew [])
+  | ["enabledNew", r, u] =>
+    match parseRe r, parseUp u with
+    | some r, some u => some (.enabledNew r u)
     | _, _ => none
-  | ["clearCache"] => some .resetCache
+  | ["resumeReq", u] => (parseUp u).map Op.resumeReq
+  | ["clearCache"] => some (.resetCache [] true)
+  | ["clearCache", r, u] =>
+    match parseRe r, parseUp u with
+    | some r, some u => some (.resetCache r u)
+    | _, _ => none
   | _ => none
 
 /-- driver state: the model state plus the ids of packets created by `sendIq` (tracked requests).
